@@ -11,7 +11,7 @@
 
 #define PATH "/vmem/c10.hdf"
 #define MAXA 12
-#define MAXV 2008
+#define MAXV 4104
 
 typedef struct {
     char  name[320];
@@ -525,7 +525,7 @@ sd_enum(mc_op *out, int max)
             }
             if (thorough || o == SO_SDS0) {
                 ADD(O_SETATTR, o, 2, 0, 3);         /* 300-character name */
-                ADD(O_SETATTR, o, 0, 1, 1000);      /* large count */
+                ADD(O_SETATTR, o, 0, 1, 1100);      /* large count */
             }
         }
         for (int o = SO_DIM0; o <= SO_DIM2; o++) {
@@ -877,7 +877,7 @@ v_enum(mc_op *out, int max)
             }
             if (thorough || o == VO_RI || o == VO_VG) {
                 ADD(O_SETATTR, o, 2, 0, 3);
-                ADD(O_SETATTR, o, 0, 1, 1000);
+                ADD(O_SETATTR, o, 0, 1, 1100); /* 2200 bytes: beyond the 2048-byte attribute cache of GR */
             }
         }
     ADD(O_REOPEN, 1, 0, 0, 0);
